@@ -1,0 +1,20 @@
+//go:build !verif
+
+package plenccodec
+
+import (
+	"sync"
+	"unsafe"
+)
+
+// These are no-ops unless plenc is built with the "verif" build tag.
+
+func verifYield(site string) {}
+
+func verifAwaitUnlocked(m *sync.Mutex) {}
+
+func verifPoolGet(pool *sync.Pool, fresh func() unsafe.Pointer, got unsafe.Pointer) unsafe.Pointer {
+	return got
+}
+
+func verifPoolPut(pool *sync.Pool, k unsafe.Pointer) {}
